@@ -78,6 +78,9 @@ package mapping
 // (so a cached default can not be shared between unmarshals).
 //@ func (*Unmarshaler).fillSlice
 //@   prop C05
+// never panics on an ill-typed document value: every type assertion and index below is proved to succeed
+//@   safety bounds typeassert divzero
+//@   replay mapping_illtyped
 //@   opaque Deref, fillSliceValue, Unmarshal
 // every struct element of the list is decoded into a value newly made for that element (so nothing an earlier
 // element set - e.g. an optional field - can show through in a later one)
@@ -85,12 +88,19 @@ package mapping
 //@   ensures [field-gets-a-fresh-slice] result == nil && calls(reflect.MakeSlice) == 1 && (ret(Len, 0, 2) == 0 || local(valid)) ==> arg(Set, 0, last) == value && arg(Set, 1, last) == ret(reflect.MakeSlice)
 //@   ensures [nothing-stored-after-the-loop-otherwise] calls(reflect.MakeSlice) == 0 || result != nil || (ret(Len, 0, 2) != 0 && !local(valid)) ==> tail(calls(Set)) == 0
 //@   ensures [not-settable] !ret(CanSet) ==> result == errValueNotSettable && calls(Set) == 0
+// a document value that is not a list (a nested list / map slot can receive anything) is a mismatch, and the
+// reflect operations that are only defined on lists (IsNil, Len, Cap, Index) run only after that check
+//@   ensures [non-list-is-a-mismatch] calls(Kind) >= 3 && ret(Kind, 0, 3) != 23 ==> result == errTypeMismatch && calls(IsNil) == 0 && calls(reflect.MakeSlice) == 0 && calls(Set) == 0
+//@   ensures [list-operations-only-on-a-list] calls(IsNil) >= 1 ==> calls(Kind) >= 3 && ret(Kind, 0, 3) == 23 && arg(Kind, 0, 3) == ret(reflect.ValueOf) && arg(IsNil, 0) == ret(reflect.ValueOf)
 
 // ---------------- field dispatch: what may be stored, and only after which checks (C05) ----------------
 // A field present with a nil value: optional => left untouched, otherwise an error. In from-string mode (form /
 // path / header sources) a non-string value or a value outside options= is an error and nothing is stored.
 //@ func (*Unmarshaler).processNamedFieldWithValue
 //@   prop C05
+// never panics on an ill-typed document value: every type assertion and index below is proved to succeed
+//@   safety bounds typeassert divzero
+//@   replay mapping_illtyped
 //@   opaque optional, fromString, options, maybeNewValue, processFieldTextUnmarshaler, processFieldNotFromString, fillPrimitive, Deref, Errorf, Contains
 //@   requires u != nil && opts != nil
 //@   ensures [nil-optional-untouched] vp.value == nil && ret(optional) ==> result == nil && calls(fillPrimitive) == 0 && calls(processFieldNotFromString) == 0 && calls(maybeNewValue) == 0
@@ -183,6 +193,9 @@ package mapping
 // key of the same name; every other shape goes to its own filler and primitives to processFieldPrimitive.
 //@ func (*Unmarshaler).processFieldNotFromString
 //@   prop C05
+// never panics on an ill-typed document value: every type assertion and index below is proved to succeed
+//@   safety bounds typeassert divzero
+//@   replay mapping_illtyped
 //@   opaque Deref, processFieldStruct, fillMap, fillMapFromString, fillSliceFromString, fillDurationValue, processFieldPrimitive
 //@   requires u != nil
 //@   let typeKind = ret(Kind, 0, 1)
@@ -339,6 +352,8 @@ package mapping
 //@   let isStringer = typeis(value, string) || calls(String) == 1
 //@   ensures [string-through-checked-store] typeis(value, string) && calls(String) == 0 ==> calls(setValue) == 1 && arg(setValue, 0) == baseKind && arg(setValue, 2) == unbox(value, string) && result == ret(setValue)
 //@   ensures [kind-mismatch-is-an-error] calls(setValue) == 0 && calls(fillMap) == 0 && result != nil ==> result == errTypeMismatch && calls(Set) == 0
+//@   ensures [object-element-only-into-a-map-slot] calls(fillMap) == 1 ==> calls(Kind) == 1 && ret(Kind) == 21 && arg(Kind, 0) == ret(Index) && result == ret(fillMap)
+//@   ensures [object-element-into-anything-else-is-a-mismatch] typeis(value, map[string]any) && calls(String) == 0 && calls(Kind) == 1 && ret(Kind) != 21 ==> result == errTypeMismatch && calls(fillMap) == 0
 //@   ensures [stored-only-with-matching-kind] calls(Set) >= 1 ==> result == nil && calls(setValue) == 0 && calls(Kind) == 3 && ret(Kind, 0, 2) == ret(Kind, 0, 3)
 // processFieldStruct: the nested struct is filled from the given valuer under the same full name; a pointer field
 // is allocated, filled and only then attached (an error leaves the field untouched).
